@@ -22,16 +22,18 @@ namespace DirectVerif.Bridge.C07
 open DirectVerif DirectVerif.MaskBudget DirectVerif.Gen.C07
 
 theorem acs_pad_eq (n l : Int) : acs_pad n l = acsPad n l := by
-  simp only [acs_pad, acsPad, Int.fdiv_eq_ediv_of_nonneg _ (by decide : (0:Int) ≤ 2)]
+  first
+  | rfl
+  | simp only [acs_pad, acsPad, Int.fdiv_eq_ediv_of_nonneg _ (by decide : (0:Int) ≤ 2)]
 
 theorem random_prob_eq (N R L : ℚ) : random_prob N R L = randomProb N R L := by
-  unfold random_prob randomProb; ring
+  first | rfl | (unfold random_prob randomProb; ring)
 
 theorem equispaced_adjusted_accel_eq (N R L : ℚ) : equispaced_adjusted_accel N R L = adjAccel N R L := by
-  unfold equispaced_adjusted_accel adjAccel; ring
+  first | rfl | (unfold equispaced_adjusted_accel adjAccel; ring)
 
 theorem equispaced_offset_bound_eq (a : ℚ) : equispaced_offset_bound a = offsetBound a := by
-  unfold equispaced_offset_bound offsetBound; rfl
+  first | rfl | (unfold equispaced_offset_bound offsetBound; rfl)
 
 /-- `np.arange(offset, num_cols - 1, adjusted_accel)`: the grid of `equiPositions` -/
 theorem equispaced_arange_eq (off N a : ℚ) :
@@ -53,7 +55,7 @@ theorem gaussian2d_request_eq (rows cols R : ℚ) (L : Int) :
 /-! ### Magic -/
 
 theorem magic_target_eq (N : Int) (R : ℚ) : magic_target (N : ℚ) R = magicTarget N R := by
-  unfold magic_target magicTarget; rfl
+  first | rfl | (unfold magic_target magicTarget; rfl)
 
 theorem magic_adjusted_eq (N rest : Int) : magic_adjusted (N : ℚ) (rest : ℚ) = magicAdj N rest := by
   unfold magic_adjusted magicAdj
@@ -64,23 +66,32 @@ theorem magic_adjusted_eq (N rest : Int) : magic_adjusted (N : ℚ) (rest : ℚ)
     simp only [h, h', if_false]
 
 theorem magic_low_eq (l t : Int) : magic_low l t = magicLow l t := by
-  unfold magic_low magicLow pyMax pyMin
-  split_ifs <;> omega
+  first
+  | rfl
+  | (unfold magic_low magicLow pyMax pyMin; split_ifs <;> omega)
 
 theorem magic_rest_eq (t l : Int) : magic_rest t l = magicRest t l := by
-  unfold magic_rest magicRest; rfl
+  first | rfl | (unfold magic_rest magicRest; rfl)
 
 theorem magic_off_pos_eq (offset : Int) : magic_off_pos offset = magicOffPos offset := by
-  simp only [magic_off_pos, magicOffPos, Int.fmod_eq_emod_of_nonneg _ (by decide : (0 : Int) ≤ 2), beq_iff_eq]
+  first
+  | rfl
+  | simp only [magic_off_pos, magicOffPos, Int.fmod_eq_emod_of_nonneg _ (by decide : (0 : Int) ≤ 2), beq_iff_eq]
 
 theorem magic_off_neg_eq (offset : Int) : magic_off_neg offset = magicOffNeg offset := by
-  simp only [magic_off_neg, magicOffNeg, Int.fmod_eq_emod_of_nonneg _ (by decide : (0 : Int) ≤ 2), beq_iff_eq]
+  first
+  | rfl
+  | simp only [magic_off_neg, magicOffNeg, Int.fmod_eq_emod_of_nonneg _ (by decide : (0 : Int) ≤ 2), beq_iff_eq]
 
 theorem magic_poslen_eq (n : Int) : magic_poslen n = magicPosLen n := by
-  simp only [magic_poslen, magicPosLen, Int.fdiv_eq_ediv_of_nonneg _ (by decide : (0 : Int) ≤ 2)]
+  first
+  | rfl
+  | simp only [magic_poslen, magicPosLen, Int.fdiv_eq_ediv_of_nonneg _ (by decide : (0 : Int) ≤ 2)]
 
 theorem magic_neglen_eq (n : Int) : magic_neglen n = magicNegLen n := by
-  simp only [magic_neglen, magicNegLen, Int.fdiv_eq_ediv_of_nonneg _ (by decide : (0 : Int) ≤ 2)]
+  first
+  | rfl
+  | simp only [magic_neglen, magicNegLen, Int.fdiv_eq_ediv_of_nonneg _ (by decide : (0 : Int) ≤ 2)]
 
 /-- the frame loop draws, strides, flips, shifts and unites exactly as `magicFrame` does -/
 theorem magic_plan_eq : magicPlan = expectedMagicPlan := by decide
@@ -103,7 +114,7 @@ theorem choose_skeleton_eq : chooseSkeleton = expectedChooseSkeleton := by decid
 
 /-- `slope = (slope_max + slope_min) / 2` -/
 theorem poisson_mid_eq (lo hi : ℚ) : poisson_mid lo hi = exactMid lo hi := by
-  unfold poisson_mid exactMid; ring
+  first | rfl | (unfold poisson_mid exactMid; ring)
 
 /-- the binary64 midpoint the driver executes is the rounded **translated** expression: sum rounded, halving exact -/
 theorem poisson_float_mid_eq (lo hi : ℚ) : floatMid lo hi = rnd53 (2 * poisson_mid lo hi) / 2 := by
@@ -135,15 +146,15 @@ theorem code_bisection_iv_post_returned (mid : ℚ → ℚ → ℚ) (R tol : ℚ
 /-! ### CIRCUS arithmetic -/
 
 theorem circus_M_radial_eq (prod a maxd mind : ℚ) : circus_M_radial prod a maxd mind = circusM prod a maxd mind := by
-  unfold circus_M_radial circusM circusDenom; rfl
+  first | rfl | (unfold circus_M_radial circusM circusDenom; rfl)
 
 theorem circus_M_spiral_eq (prod a maxd mind : ℚ) : circus_M_spiral prod a maxd mind = circusM prod a maxd mind := by
-  unfold circus_M_spiral circusM circusDenom; rfl
+  first | rfl | (unfold circus_M_spiral circusM circusDenom; rfl)
 
 /-- with a centre disc the patterns are drawn for the same ACS-adjusted acceleration as the equispaced lines, over
 `rows·cols` cells -/
 theorem circus_adjusted_accel_eq (rows cols R L : ℚ) : circus_adjusted_accel rows cols R L = adjAccel (rows * cols) R L := by
-  unfold circus_adjusted_accel adjAccel; ring
+  first | rfl | (unfold circus_adjusted_accel adjAccel; ring)
 
 /-! ### nothing is carried from one call to the next -/
 
